@@ -30,12 +30,13 @@ type Result struct {
 }
 
 // CaseBudget is the real-time budget of one bubble (0 = none). A normal case takes
-// milliseconds; the budget only ends cases in which a goroutine spins.
+// milliseconds (the heaviest generated ones tens of milliseconds); the budget is four orders
+// of magnitude above that and only ends cases in which a goroutine spins.
 func CaseBudget() time.Duration {
 	if v, err := strconv.Atoi(os.Getenv("VERIF_CASE_BUDGET_S")); err == nil {
 		return time.Duration(v) * time.Second
 	}
-	return 8 * time.Second
+	return 20 * time.Second
 }
 
 var abandoned atomic.Int32
